@@ -5,6 +5,7 @@
 mod util;
 mod vals;
 mod c13;
+mod c20;
 mod c19;
 mod c09;
 mod c18;
@@ -67,6 +68,7 @@ fn main() {
     let mut run = Run::new(&prop, seed, tier);
     match (mode.as_str(), prop.as_str()) {
         ("corr", "C13") => c13::corr(&mut run),
+        ("corr", "C20") => c20::corr(&mut run),
         ("corr", "C19") => c19::corr(&mut run),
         ("corr", "C09") => c09::corr(&mut run),
         ("corr", "C18") => c18::corr(&mut run),
